@@ -23,6 +23,34 @@ CLAIMED = {
         text="Proof for Unpack, String and Unit of every datapoint type in package dpt (174 types, 522 functions, each under its own contract): no panic for any byte slice of any length and capacity; a payload whose length differs from the fixed length of the type's main number is rejected (28.001: fewer than 2 bytes); and on success the decoded value lies in the documented range (9.xxx bounds in bit-precise float32 arithmetic, 5.001 in [0,100], 5.003 in [0,360], time of day, calendar date 1990..2089 with the right month lengths, scene numbers). String/Unit: no panic for in-range values.",
         note="Assumes: go/ssa semantics, 64-bit int, SMT FloatingPoint theory = IEEE-754 binary32/64 with round-to-nearest-even as on amd64 (no FMA fusion), fmt.Sprintf/Errorf/errors.New return some string/non-nil error, time.Date normalises exactly the invalid civil dates (conformance test in the thorough tier), []rune/string conversions as abstract UTF-8 codecs. The 9.xxx range bounds in the contract file were read once from the documented ranges and frozen.",
         ref="§3 C08"),
+    "C03": dict(
+        text="Proof of the transition contracts of the tunnel sender: requestTunnel (lock taken first and released on every path; every frame sent in the call is the same TunnelReq{channel, seq0 (0 on TCP), data}; TCP: exactly one send, no wait; UDP: success only with a received ack carrying seq0 and status 0 and then seqNumber == seq0+1; matching ack with error status fails and still advances; non-matching acks change nothing; ticker = ResendInterval, timeout = ResponseTimeout, each created once), handleTunnelRes (offers on conn.ack only for the connection's channel) and requestConn (resets the counter to 0 under the lock).",
+        note="Sequential model of the environment (DESIGN §2.4.5): knxnet.Socket, channels, goroutines, mutexes, timers and container/list are environment operations with ghost logs (send log per socket, sent/received count and last value per channel, held flag per mutex, ghost clock); select may take any case, receives may yield any well-typed value or 'closed'; loop-free goroutines are run to completion in place (assumed: eventually scheduled), long-running workers are logged and verified separately. Holds for every sequence of environment choices, NOT for interleavings with other goroutines touching the same state (that is C10), nor for liveness/wall-clock claims.",
+        ref="§3 C03"),
+    "C04": dict(
+        text="Proof of handleTunnelReq's transition relation (deliver iff channel matches and (TCP or seq == expected); expected advances exactly then, modulo 256; ack iff UDP and seq in {expected, expected-1}, carrying channel/seq/status 0; otherwise neither), of pushInbound's hand-off (exactly one send of msg on inbound, directly or by the spawned goroutine) and, as a per-iteration 'step' obligation of process, that each TunnelReq taken from the socket is delivered/counted by exactly that rule against a counter that is a local of process (0 on every (re)entry).",
+        note="Sequential model of the environment (DESIGN §2.4.5): knxnet.Socket, channels, goroutines, mutexes, timers and container/list are environment operations with ghost logs (send log per socket, sent/received count and last value per channel, held flag per mutex, ghost clock); select may take any case, receives may yield any well-typed value or 'closed'; loop-free goroutines are run to completion in place (assumed: eventually scheduled), long-running workers are logged and verified separately. Holds for every sequence of environment choices, NOT for interleavings with other goroutines touching the same state (that is C10), nor for liveness/wall-clock claims.",
+        ref="§3 C04"),
+    "C09": dict(
+        text='Proof of the transition contracts of requestConnState, performHeartbeat (signals only when no response or a non-zero status arrived), handleConnStateRes/handleDiscReq/handleDiscRes (foreign channels change nothing, a matching DiscReq is answered by exactly one DiscRes), requestDisc, process (exits only with nil/errHeartbeatFailed/errInboundClosed/errDisconnected), serve (closes ack and inbound and calls Done exactly once on every exit), requestConn (request carries layer and control; success sets channel from the response and seqNumber 0) and checkTunnelConfig (all durations positive).',
+        note="Sequential model of the environment (DESIGN §2.4.5): knxnet.Socket, channels, goroutines, mutexes, timers and container/list are environment operations with ghost logs (send log per socket, sent/received count and last value per channel, held flag per mutex, ghost clock); select may take any case, receives may yield any well-typed value or 'closed'; loop-free goroutines are run to completion in place (assumed: eventually scheduled), long-running workers are logged and verified separately. Holds for every sequence of environment choices, NOT for interleavings with other goroutines touching the same state (that is C10), nor for liveness/wall-clock claims.",
+        ref="§3 C09"),
+    "C12": dict(
+        text="Proof of buildGroupOutbound's post-condition (group flag, hop count 6, low priority, std-frame flag iff len(Data) <= 15, AppData with the command and the payload, addresses), of GroupTunnel.Send / GroupRouter.Send (exactly that frame as L_Data.req in a TunnelReq resp. L_Data.ind in a RoutingInd) and, as per-iteration step obligations of serveGroupInbound, the exact inbound filter (event iff LDataInd, group address, AppData, command < 3; with equal command/source/destination/data) and close(outbound) when inbound closes.",
+        note="Sequential model of the environment (DESIGN §2.4.5): knxnet.Socket, channels, goroutines, mutexes, timers and container/list are environment operations with ghost logs (send log per socket, sent/received count and last value per channel, held flag per mutex, ghost clock); select may take any case, receives may yield any well-typed value or 'closed'; loop-free goroutines are run to completion in place (assumed: eventually scheduled), long-running workers are logged and verified separately. Holds for every sequence of environment choices, NOT for interleavings with other goroutines touching the same state (that is C10), nor for liveness/wall-clock claims.",
+        ref="§3 C12"),
+    "C13": dict(
+        text="Proof of the stated part: Router.Send releases sendMu (in the deferred goroutine) only after sleeping at least the post-send pause following a successful transmission (ghost clock: unlock time >= send time + pause); serve, on a routing-busy indication, holds sendMu until at least min(WaitTime, 50 ms) later (time.AfterFunc with that duration). Not claimed: queue order of waiting senders, 'every Send eventually returns'.",
+        note="Sequential model of the environment (DESIGN §2.4.5): knxnet.Socket, channels, goroutines, mutexes, timers and container/list are environment operations with ghost logs (send log per socket, sent/received count and last value per channel, held flag per mutex, ghost clock); select may take any case, receives may yield any well-typed value or 'closed'; loop-free goroutines are run to completion in place (assumed: eventually scheduled), long-running workers are logged and verified separately. Holds for every sequence of environment choices, NOT for interleavings with other goroutines touching the same state (that is C10), nor for liveness/wall-clock claims. time.Sleep/time.AfterFunc are assumed to advance the ghost clock by at least their argument.",
+        ref="§3 C13"),
+    "C14": dict(
+        text='Proof over the abstract length view of the retainer list: Router.Send retains exactly on success, never more than RetainCount (trimming from the front only), and sends exactly one RoutingInd carrying the message; resendLost removes min(k, retained) elements from the back and spawns exactly one sendMultiple with that many messages; sendMultiple sends them in slice order; serve hands each RoutingInd payload to pushInbound exactly once and closes inbound when the socket channel closes; checkRouterConfig yields RetainCount >= 1.',
+        note="Sequential model of the environment (DESIGN §2.4.5): knxnet.Socket, channels, goroutines, mutexes, timers and container/list are environment operations with ghost logs (send log per socket, sent/received count and last value per channel, held flag per mutex, ghost clock); select may take any case, receives may yield any well-typed value or 'closed'; loop-free goroutines are run to completion in place (assumed: eventually scheduled), long-running workers are logged and verified separately. Holds for every sequence of environment choices, NOT for interleavings with other goroutines touching the same state (that is C10), nor for liveness/wall-clock claims. List CONTENTS and order inside the retainer are not modelled (container/list is an assumed contract with a length view), so 'exactly the last k messages in their original order' is proved only up to counts and the back/front end used.",
+        ref="§3 C14"),
+    "C20": dict(
+        text="Proof for DescribeTunnel and DiscoverOnInterface: at most one request is sent, the socket obtained is closed on every return path after a successful dial, the timeout channel is created once with the caller's timeout and is an alternative of every select, and (Discover) each iteration appends exactly the received *SearchRes, in arrival order, and nothing else.",
+        note="Sequential model of the environment (DESIGN §2.4.5): knxnet.Socket, channels, goroutines, mutexes, timers and container/list are environment operations with ghost logs (send log per socket, sent/received count and last value per channel, held flag per mutex, ghost clock); select may take any case, receives may yield any well-typed value or 'closed'; loop-free goroutines are run to completion in place (assumed: eventually scheduled), long-running workers are logged and verified separately. Holds for every sequence of environment choices, NOT for interleavings with other goroutines touching the same state (that is C10), nor for liveness/wall-clock claims. The wall-clock bound itself reduces to the assumed contract of time.After/select. Dial/Listen and NewDescriptionReq/NewSearchReq are assumed (trusted) contracts.",
+        ref="§3 C20"),
 }
 
 NA = {
